@@ -19,7 +19,8 @@ type Clause struct {
 	Line  int
 	File  string
 	AfterLoop int  // ensures only: >0 means "checked only at returns dominated by the header of loop AfterLoop-1"
-	Props []string // restricts the properties this clause serves (empty = the function's)
+	Props []string // properties named on the clause: added to the function's (a hint for the reader) unless Only
+	Only  bool     // [only Cxx …]: the clause serves exactly these properties (used for clauses with recorded findings)
 	// Group: assumptions made from this clause (assumed invariant, callee postcondition) are visible only to
 	// obligations generated from clauses of the same group; ungrouped assumptions are visible to all.
 	// Used to keep mutually triggering quantified facts (forall-exists both ways) out of each other's context.
@@ -110,7 +111,7 @@ func fkey(pkg, name string) string { return pkg + " " + name }
 
 var labelRe = regexp.MustCompile(`^([A-Za-z_][A-Za-z0-9_\.]*)\s*:\s+(.*)$`)
 var groupRe = regexp.MustCompile(`^\{([A-Za-z0-9_]+)\}\s*(.*)$`)
-var propTagRe = regexp.MustCompile(`^\[([C0-9, ]+)\]\s*(.*)$`)
+var propTagRe = regexp.MustCompile(`^\[((?:only )?[C0-9, ]+)\]\s*(.*)$`)
 
 func LoadContracts(repo string, pkgDirs map[string]string) (*Contracts, error) {
 	cs := &Contracts{Funcs: map[string]*FuncContract{}, Specs: map[string]*SpecDef{}, Types: map[string]*TypeContract{}}
@@ -444,6 +445,15 @@ func mkClause(text, file string, line int) (*Clause, error) {
 		cl.Props = append(cl.Props, strings.Fields(strings.ReplaceAll(m[1], ",", " "))...)
 		text = m[2]
 	}
+	var kept []string
+	for _, p := range cl.Props {
+		if p == "only" {
+			cl.Only = true
+			continue
+		}
+		kept = append(kept, p)
+	}
+	cl.Props = kept
 	e, err := ParseSpec(text)
 	if err != nil {
 		return nil, fmt.Errorf("%s:%d: %v", file, line, err)
